@@ -266,7 +266,7 @@ impl Agg {
                     }
                     self.mm.end(&end_errs);
                 }
-            } else if r["sample"] == true {
+            } else if r["sample"] == true && self.sm.histories < 800 {
                 self.sm.init(self.nh, self.maxbufs, &self.statics, &json!({"edge":edge_no,"variant":e}));
                 for rec in r["recs"].as_array().unwrap() {
                     self.sm.call(&rec["c"], &rec["o"], &rec["std"]);
